@@ -36,16 +36,60 @@ func nonZeroBytes(r *Rng, n int) []byte {
 	return b
 }
 
+// earlyStop: a frame longer than the decoder's 4096-octet buffer whose decoding ends well before its last octet
+func earlyStop(r *Rng) streamItem {
+	seq := int32(1 + r.Intn(1000))
+	n := r.Pick([]int{4081, 4200, 5000, 9000, 20000})
+	switch r.Intn(3) {
+	case 0: // header-only type, the rest of the frame is ignored
+		id := []uint32{6, 0x80000006, 0x80000015, 0x80000008}[r.Intn(4)]
+		return streamItem{frame: rawFrame(id, 0, seq, r.Bytes(n)), want: "ok-trailing"}
+	case 1: // submit_multi with an invalid dest_flag right at the start of the destination list
+		body := append([]byte{0, 0, 0, 0, 3, 9}, r.Bytes(n)...)
+		return streamItem{frame: rawFrame(0x21, 0, seq, body), want: "decode-err"}
+	default: // non-zero command_status in front of a large body: only the header counts
+		return streamItem{frame: rawFrame(uint32(r.Pick([]int{4, 5, 0x80000004})), uint32(1+r.Intn(200)), seq, r.Bytes(n)), want: "ok-trailing"}
+	}
+}
+
 func genStream(r *Rng, ts []pduType, nItems int, small bool) (items []streamItem, data []byte) {
+	forced := -1
+	if !small && r.Intn(2) == 0 {
+		forced = r.Intn(nItems)
+		nItems += 2 // something must follow it
+	}
 	for len(items) < nItems {
 		var it streamItem
+		if len(items) == forced {
+			it = earlyStop(r)
+			items = append(items, it)
+			data = append(data, it.frame...)
+			continue
+		}
 		switch r.Intn(10) {
 		case 0: // acceptable header, unknown command_id
 			ids := []uint32{10, 0x0BAD, 0x80000000 | 0x0BAD, 0x7FFFFFFF, 0, 0xFFFFFFFF}
 			it = streamItem{frame: rawFrame(ids[r.Intn(len(ids))], 0, int32(1+r.Intn(1000)), r.Bytes(r.Intn(40))), want: "unknown-id"}
-		case 1: // known id, body that cannot be decoded (unterminated C-string)
+		case 1: // known id, body that cannot be decoded (unterminated C-string); now and then longer than the decoder's 4096-octet buffer
 			ids := []uint32{1, 2, 4, 5, 9, 0x80000004}
-			it = streamItem{frame: rawFrame(ids[r.Intn(len(ids))], 0, int32(1+r.Intn(1000)), nonZeroBytes(r, r.Intn(30))), want: "decode-err"}
+			n := r.Intn(30)
+			if !small && r.Intn(3) == 0 {
+				n = r.Pick([]int{4081, 4096, 5000, 9000})
+			}
+			it = streamItem{frame: rawFrame(ids[r.Intn(len(ids))], 0, int32(1+r.Intn(1000)), nonZeroBytes(r, n)), want: "decode-err"}
+		case 2:
+			if small || r.Intn(2) == 0 {
+				f, p, t := genFrame(r, ts)
+				if small && len(f) > 400 {
+					continue
+				}
+				it = streamItem{frame: f, want: "ok", p: p, t: t}
+				break
+			}
+			// decoding stops before the end of the frame: a header-only type followed by thousands of ignored octets
+			id := []uint32{6, 0x80000006, 0x80000015, 0x80000008}[r.Intn(4)]
+			seq := int32(1 + r.Intn(1000))
+			it = streamItem{frame: rawFrame(id, 0, seq, r.Bytes(r.Pick([]int{1, 100, 4090, 5000}))), want: "ok-trailing"}
 		default:
 			f, p, t := genFrame(r, ts)
 			if small && len(f) > 400 {
@@ -76,6 +120,14 @@ func checkStream(r *Run, items []streamItem, data []byte, sched []int, tag strin
 		if o.Kind == "panic" {
 			r.Fail("reframe/panic/"+tag, "ReadPDU panicked on a valid stream", in, o.Msg, "no panic")
 			return obs
+		}
+		if it.want == "ok-trailing" {
+			if o.Kind != "ok" || o.Consumed != len(it.frame) {
+				r.Fail("reframe/kind/ok-trailing/"+tag, fmt.Sprintf("PDU %d (a header-only type with ignored trailing octets) was not returned as written", i), in,
+					kinds(obs), fmt.Sprintf("call %d: ok consuming %d", i, len(it.frame)))
+				return obs
+			}
+			continue
 		}
 		if o.Kind != it.want {
 			r.Fail("reframe/kind/"+it.want+"/"+tag, fmt.Sprintf("PDU %d of the stream was not returned as written", i), in,
@@ -117,12 +169,19 @@ func corrC03(r *Run) {
 	ts := pduTypes()
 	nStreams := r.N(60, 1500)
 	caseBudget := r.N(260, 4000)
+	bigBudget := r.N(8, 300)
 	vol := &pduVolume{}
 	defer vol.diff(r)
 	volN := 0
 	emit := func(data []byte, sched []int, obs []readObs, what string) {
 		if caseBudget <= 0 {
 			return
+		}
+		if len(data) > 2500 { // streams of several KiB are slow to parse inside coqc: a fixed number per run
+			if bigBudget <= 0 {
+				return
+			}
+			bigBudget--
 		}
 		caseBudget--
 		r.Case(fmt.Sprintf("%s stream=%s sched=%s", what, shortHex(data), schedString(sched)),
